@@ -13,7 +13,27 @@ import (
 // HRP draws a single-case human-readable part of n bytes over 33..126 (no upper-case letters).
 func HRP(t *rapid.T, n int) string {
 	b := make([]byte, n)
-	kind := h.Pick(t, "hrpkind", 4, 2, 1)
+	kind := h.Pick(t, "hrpkind", 8, 4, 2, 1, 1)
+	if kind >= 3 && n >= 3 {
+		// prefixes with inner structure, cut or padded to n characters: a word, a separator and the same
+		// word again ("x:x", "ab-ab": whatever strips a scheme, a label or a repeated part sees one here),
+		// or URL / escape syntax inside the prefix (%2d, %41, +, &amp;, \n, \x41)
+		var str string
+		w := HRP(t, (n-1)/2)
+		if kind == 3 {
+			sep := h.OneOf(t, "hrpsep", ":", "-", "_", ".", "/", "=", "@", "#", "+", "|", "~")
+			str = w + sep + w
+		} else {
+			str = w + h.OneOf(t, "hrpesc", "%2d", "%41", "%31", "%00", "+", "&amp;", "\\n", "\\x41", "%%", "%s", "://") + w
+		}
+		for len(str) < n {
+			str += "x"
+		}
+		return str[:n]
+	}
+	if kind >= 3 {
+		kind = 2
+	}
 	for i := range b {
 		switch kind {
 		case 0: // letters only
